@@ -1,6 +1,7 @@
 import OrsoVerif.Model.PyVal
 import OrsoVerif.Model.GroupBy
 import OrsoVerif.Model.GroupByCode
+import OrsoVerif.Model.GroupByX
 /-! Driver glue for C12: decode a frame, key columns and requests; run the model; encode. -/
 namespace Drv.C12
 open GroupBy
@@ -30,6 +31,17 @@ def supported (fr : Frame) (reqs : List Req) : Bool :=
         | .int _ => true
         | .none => true
         | _ => false
+
+/-- Float value columns: a requested column may hold integers (the `x` of `x / scale`), the tokens of
+the non-finite floats, and nulls. -/
+def supportedX (fr : Frame) (reqs : List Req) : Bool :=
+  reqs.all fun q =>
+    match index q.2 fr.columns with
+    | none => q.1 = .count
+    | some i => fr.rows.all fun r =>
+        match r.getD i .none with
+        | .none => true
+        | v => (xnum v).isSome
 
 def decodeOp : PyVal → Option Op
   | .list [.str "groups"] => some .groups
@@ -71,6 +83,13 @@ def handle (op : String) (args : List PyVal) : Option (List PyVal) :=
     let reqs ← reqs.mapM decodeReq
     let fr : Frame := { columns := cols, rows := rows }
     if supported fr reqs then pure (encode (run fr keyCols reqs)) else none
+  | "aggregate_x", [.list cols, .list rows, .list keyCols, .list reqs] => do
+    let cols ← cols.mapM decodeStr
+    let rows ← rows.mapM (decodeRow cols.length)
+    let keyCols ← keyCols.mapM decodeStr
+    let reqs ← reqs.mapM decodeReq
+    let fr : Frame := { columns := cols, rows := rows }
+    if supportedX fr reqs then pure (encode (runX fr keyCols reqs)) else none
   | "groups", [.list cols, .list rows, .list keyCols] => do
     let cols ← cols.mapM decodeStr
     let rows ← rows.mapM (decodeRow cols.length)
